@@ -57,7 +57,7 @@ def load_findings(pid):
 def build_engine(eng):
     if eng["type"] in ("pbt", "fuzz", "custom"):
         return build.build_harness(eng["harness"], eng["variant"], libs=eng.get("libs", ["rapidcheck"]),
-                                   extra=eng.get("cxxflags", []))
+                                   extra=eng.get("cxxflags", []), ldflags=eng.get("ldflags", []))
     raise SystemExit("unknown engine type")
 
 
